@@ -151,7 +151,7 @@ func (bin *Bin) setCompleted() {
 // capacity
 func (bin *Bin) IsFull() bool {
 	space := bin.capacity - bin.bytes
-	return space < 0 || space < bin.fluff
+	return space <= 0 || space < bin.fluff
 }
 
 // Add adds what it can of the input Binnable to the bin.  Returns false if no
